@@ -136,6 +136,7 @@ type c14Filter struct {
 	// atomOf recognises a comparison leaf of the filter
 	atomOf func(e ast.Expr) (id string, neg, ok bool)
 	wit    [3]string // witnesses: kept-without-match, dropped-with-match, partial
+	image  *c14Image // filter values parsed into a list before the window loop (nil: classic shape)
 }
 
 // c14StartExpr: e is `<elem>.start` or `<elem>.start.UTC()`; other window
@@ -147,6 +148,45 @@ func c14WindowFieldOf(cm *c14Model, f *kit.Func, e ast.Expr) (fv *types.Var, ok 
 		if name, rx, isT := c14TimeMethod(info, call); isT && name == "UTC" {
 			e = ast.Unparen(rx)
 		}
+	}
+	// a local copy `s := <elem>.start(.UTC())` with a single definition
+	if id, isId := e.(*ast.Ident); isId {
+		o := kit.ObjOf(info, id)
+		if o == nil || !c14IsTime(o.Type()) {
+			return nil, false
+		}
+		var def ast.Expr
+		n := 0
+		ast.Inspect(f.Body, func(x ast.Node) bool {
+			switch as := x.(type) {
+			case *ast.AssignStmt:
+				for i, l := range as.Lhs {
+					if lid, ok := ast.Unparen(l).(*ast.Ident); ok && kit.ObjOf(info, lid) == o {
+						n++
+						if len(as.Lhs) == len(as.Rhs) {
+							def = as.Rhs[i]
+						}
+					}
+				}
+			case *ast.ValueSpec:
+				for i, nm := range as.Names {
+					if info.Defs[nm] == o {
+						n++
+						if len(as.Values) == len(as.Names) {
+							def = as.Values[i]
+						}
+					}
+				}
+			}
+			return true
+		})
+		if n != 1 || def == nil {
+			return nil, false
+		}
+		if _, again := ast.Unparen(def).(*ast.Ident); again {
+			return nil, false
+		}
+		return c14WindowFieldOf(cm, f, def)
 	}
 	base, v, isSel := kit.FieldSel(info, e)
 	if !isSel || (v != cm.trF[0] && v != cm.trF[1]) || !cm.m.isElemOf(f, base, cm.tr) {
@@ -168,7 +208,7 @@ func c14R4(c *kit.Ctx, cm *c14Model, r4 *kit.Rule) {
 	}{{cm.fw, "weekday filter"}, {cm.fd, "date filter"}} {
 		f := ff.f
 		info := f.Info()
-		o := r4.Ob(f, nil, ff.name+" reads the start only", "the filter reads no other field of a window than its start")
+		o := r4.Ob(f, nil, ff.name+" reads the start only", "the filter reads no other field of a window than its start, and decides each window by that window's own start (no value derived from another window's field meets a filter value in a branch condition)")
 		nStart := 0
 		var other []string
 		ast.Inspect(f.Body, func(n ast.Node) bool {
@@ -183,9 +223,14 @@ func c14R4(c *kit.Ctx, cm *c14Model, r4 *kit.Rule) {
 			}
 			return true
 		})
+		fviol, fundec := c14ForeignReads(cm, f, f.Params()[0])
 		switch {
 		case len(other) > 0:
 			o.Violation("witness: window 22:00–06:00 starting on an allowed day and ending on a day that is not allowed: the filter reads %s", strings.Join(other, ", "))
+		case len(fviol) > 0:
+			o.Violation("witness: schedule 20:00–06:00 restricted to the date 2021-12-31, t = 2022-01-01 02:00 (windows: one starting 2022-01-01, the wrapped one starting 2021-12-31): the window that started on the listed day is judged by another window's calendar day — %s", strings.Join(fviol, "; "))
+		case len(fundec) > 0:
+			o.Undecided("%s", strings.Join(fundec, "; "))
 		case nStart == 0:
 			o.Undecided("the filter reads no window field at all")
 		default:
@@ -244,6 +289,25 @@ func c14R4(c *kit.Ctx, cm *c14Model, r4 *kit.Rule) {
 		info := f.Info()
 		dparam := f.Params()[0]
 		groups := c14AtoiGroups(f)
+		img := c14DateImage(cm, f, dparam)
+		groupOf := func(e ast.Expr) (int, bool) {
+			e = c14StripConv(info, e)
+			if g, has := groups[kit.ObjOf(info, e)]; has {
+				if _, isId := e.(*ast.Ident); isId {
+					return g, true
+				}
+			}
+			if img != nil {
+				if base, fv, ok := kit.FieldSel(info, e); ok {
+					if rs := cm.m.rangesOf(f).val[kit.ObjOf(info, base)]; rs != nil && kit.ObjOf(info, rs.X) == img.list {
+						if g, has := img.groups[fv]; has && g > 0 {
+							return g, true
+						}
+					}
+				}
+			}
+			return 0, false
+		}
 		comp := func(e ast.Expr) string {
 			e = ast.Unparen(e)
 			if call, ok := e.(*ast.CallExpr); ok && len(call.Args) == 1 {
@@ -285,7 +349,7 @@ func c14R4(c *kit.Ctx, cm *c14Model, r4 *kit.Rule) {
 					if id == "" {
 						continue
 					}
-					g, has := groups[kit.ObjOf(info, sw[1])]
+					g, has := groupOf(sw[1])
 					if !has {
 						continue
 					}
@@ -299,6 +363,7 @@ func c14R4(c *kit.Ctx, cm *c14Model, r4 *kit.Rule) {
 			},
 			wit: [3]string{"dates {2024-03-10}, window starting 2024-04-10", "dates {2024-03-10}, window starting 2024-03-10", "dates {2024-03-10}, window starting on 10 March of another year/month"},
 		}
+		flt.image = img
 		o := c14FilterRun(c, cm, flt, dparam, r4)
 		if len(mispaired) > 0 && o != nil {
 			o.Violation("%s", strings.Join(uniqStrings(mispaired), "; "))
@@ -366,11 +431,29 @@ func c14FilterRun(c *kit.Ctx, cm *c14Model, flt *c14Filter, fparam *types.Var, r
 	outer := c14ListLoops(cm, f)
 	inner := map[*ast.RangeStmt]bool{}
 	ruInspectOwn(f, func(n ast.Node) bool {
-		if rs, ok := n.(*ast.RangeStmt); ok && kit.ObjOf(info, rs.X) == types.Object(fparam) {
+		rs, ok := n.(*ast.RangeStmt)
+		if !ok {
+			return true
+		}
+		switch xo := kit.ObjOf(info, rs.X); {
+		case flt.image != nil && rs == flt.image.loop:
+			// the parse loop that builds the list of filter values
+		case xo == types.Object(fparam):
+			inner[rs] = true
+		case flt.image != nil && xo == flt.image.list:
 			inner[rs] = true
 		}
 		return true
 	})
+	if flt.image != nil && !flt.image.exact {
+		// the list the windows are compared with is not the whole filter
+		if fv, _ := c14ForeignReads(cm, f, fparam); len(fv) > 0 {
+			o.Violation("the filter values are thinned out before the window loop by a test on another window's start (%s): the windows are then compared with the wrong set of values; witness: dates {2021-12-31}, schedule 20:00–06:00, t = 2022-01-01 02:00 → %s", flt.image.why, strings.Join(fv, "; "))
+		} else {
+			o.Undecided("the filter values are parsed into a list before the window loop, but not all of them (%s)", flt.image.why)
+		}
+		return o
+	}
 	if len(outer) != 1 || len(inner) != 1 {
 		o.Undecided("expected one loop over the windows and one over the filter values, found %d / %d", len(outer), len(inner))
 		return o
